@@ -144,7 +144,7 @@ def evaluate(name, rule, N):
 
         for i, ch in enumerate(rule.children):
             idx.setdefault(ch, len(idx) + 1)
-        cap = N + 6
+        cap = N + max([0] + [-x for x in out.get("shifts", [])]) + 1
         recs = [specrun.rule_record(rule, 0, ci, cap)]
         for ch, i in idx.items():
             recs.append(f"c={i}&k=ver&T=" + "+".join(f"{n}@{specrun.st(true_terms(ch, n))}" for n in range(cap + 1)))
@@ -175,6 +175,7 @@ def worker(args):
                 if r.comb_class.is_empty():
                     continue
                 o = evaluate(name, r, N)
+                o["desc"] = {"class": c.to_jsonable(), "sw": isinstance(c, SW), "mode": mode, "strategy": type(s).__name__, "form": name}
                 o["mode"] = mode
                 o["strategy"] = type(s).__name__
                 o["nparams"] = len(c.params)
@@ -197,3 +198,19 @@ def collect(seed, nclasses, N, procs=16):
     outs = specrun.pool_map(worker, jobs)
     specrun.quiet()
     return [o for part in outs for o in part]
+
+
+def replay_desc(desc, N=6):
+    """rebuild one rule form from its descriptor and evaluate it"""
+    d = dict(desc["class"])
+    c = (SW if desc.get("sw") else PW).from_dict(d)
+    for s in strategies(desc["mode"]):
+        if type(s).__name__ == desc["strategy"]:
+            rule = s(c)
+            for name, r in forms(rule):
+                if name == desc["form"]:
+                    o = evaluate(name, r, N)
+                    o["desc"] = desc
+                    o["mode"] = desc["mode"]
+                    return o
+    return None
